@@ -8,7 +8,9 @@ encode16_decode16, string_stops_at_first_zero, unpack_exactly_n,
 assign_shorter_writes_terminator (+ exact fit, too long, wrong kind),
 new_char_array_roundtrip, new_fixed_char_array_roundtrip.
 
-Tie to the code: every scenario below is executed on the rebuilt _cffi_backend,
+Tie to the code: translate/c15_exprs.py re-extracts every test and arithmetic expression of the modelled
+C functions into Generated/CharExprs.lean on each run (the models are written over those definitions and
+Proofs/*.lean prove what each means, so a changed test stops the proofs); and every scenario below is executed on the rebuilt _cffi_backend,
 the raw units of the whole container are read back through ffi.buffer, and
  (a) the property's statement is evaluated in plain Python (struct / codecs with
      'surrogatepass' -- no model involved), and
@@ -18,10 +20,13 @@ import json
 import os
 import signal
 import struct
+import sys
 import traceback
 
 import common
 from common import InfraError
+
+sys.path.insert(0, os.path.join(common.VERIF, "translate"))
 
 MANIFEST = {
     "text": "Kernel-checked theorems over Lean models of cffi's wide-character converters and of the char-array paths of "
@@ -37,6 +42,7 @@ MANIFEST = {
             "PyUnicode_AsUCS4 / memcpy / memchr are modelled, not verified; _Bool[] from bytes, list initialisers and slices are not modelled; "
             "wchar_t is modelled at the width ffi.sizeof reports.",
     "technique": "Lean 4 proof (structural induction over code-point / unit lists; bit operations reduced to div/mod + omega) "
+                 "+ translator (tests and arithmetic of wchar_helper_3.h / convert_array_from_object / b_string re-extracted each run) "
                  "+ differential correspondence with the rebuilt backend + plain-Python property oracle",
 }
 
@@ -49,6 +55,8 @@ RULE = ("random bytes (1..255) and str drawn from ASCII / Latin-1 / BMP / astral
         "high bytes}) cell 3 times plus ffi.new('T[]') per (width x class), neighbour memory observed after every store (struct "
         "fields before/after, rows before/after, a 0xA5-filled arena around ffi.new allocations), counts recorded as cell:* in the "
         "distribution; a case is non-trivial when the string is non-empty; distinct = distinct (type, op, units, parameters)")
+TRUSTED_EXTRA = ["translate/c15_exprs.py: regex/shape-checked extraction of the tests and arithmetic of wchar_helper_3.h, "
+                 "convert_array_from_object, get_new_array_length and b_string into Generated/CharExprs.lean"]
 ASSUMPTIONS = ["little-endian units in ffi.buffer", "sizeof(wchar_t) in {2,4}; the width reported by ffi.sizeof is used"]
 
 CLASSES = {
@@ -69,6 +77,11 @@ FINDINGS = [{
 ARENA, GUARD = 1024, 256
 TYPES = ["char", "signed char", "unsigned char", "wchar_t", "char16_t", "char32_t"]
 FMT = {1: "B", 2: "H", 4: "I"}
+
+
+def translators(ctx):
+    import c15_exprs
+    return [c15_exprs.translator]
 
 
 def _register_findings(ctx):
